@@ -170,6 +170,20 @@ def cond_spec(t, sp=None, null_as=None):
         return sp.r.choice([{}, None])
     if isinstance(t, Leaf):
         return leaf_spec(t, sp)
+    if sp.share:
+        # a combination that occurs twice in the tree is written once and used twice (one mapping object)
+        from .terms import dumps
+        key_ = ("cond", dumps(t))
+        if key_ in sp.memo:
+            sp.dims.add("shared-sub-spec")
+            return sp.memo[key_]
+        out_ = _cond_spec_op(t, sp)
+        sp.memo[key_] = out_
+        return out_
+    return _cond_spec_op(t, sp)
+
+
+def _cond_spec_op(t, sp):
     # flatten same-op left spine sometimes
     items = [t.r]
     cur = t.l
